@@ -9,7 +9,8 @@
    `Delimited sh lay` is a DECIDABLE side condition (a boolean function of the derivation): every rendered statement,
    selector, declaration is one closed run for the _tokensupto2 call that cuts it.  It is evaluated by the harness on
    every generated derivation (extracted with the grammar) and holds on all of them; see design_notes/C02.md.       *)
-From CssV Require Import Base Tokenizer Upto Skeleton Grammar GrammarFacts GrammarWf.
+From CssV Require Import Base Tokenizer Upto Skeleton Grammar GrammarFacts GrammarWf GrammarPP.
+From CssV Require ProdParserValue.
 From CssV Require Selector.
 
 (* "yields exactly one rule per statement, in source order, carrying the rule type": the top-level loop cuts the token
@@ -186,3 +187,87 @@ Proof. exact (conj ex_tokenize_render ex_selectors). Qed.
 Example order_machine_example : orun 0 (events ex_sheet ex_lay) = repeat true (length (events ex_sheet ex_lay))
                                 /\ orun 0 [OBody; OImport] = [true; false].
 Proof. vm_compute. split; reflexivity. Qed.
+
+(* ================================================================== hypotheses discharged through the PP engine model
+   (GrammarPP.v on top of ProdParser*.v; the existing theorems above are unchanged).
+
+   parse_faithful_fragment: parse_faithful_partial generalised to predicates okd / okm / oks on the declarations, @media
+   heads and simple at-rules THAT OCCUR IN THE SHEET (OkSheet): the unmodelled handlers have to be faithful only there.  *)
+Theorem parse_faithful_fragment :
+  forall (build_value build_media : list tok -> js) (build_other : kind -> list tok -> js) (lay : layout)
+         (okd : decl -> Prop) (okm : mlist -> Prop) (oks : stmt -> Prop),
+  (forall d ga, okd d -> build_value (decl_value lay d (gopt lay ga)) = m_value d) ->
+  (forall g0 media g1, okm media -> build_media (media_head lay g0 media g1 ++ [ch "{"]) = m_mlist media) ->
+  (forall ns x, match x with SStyle _ _ | SMedia _ _ _ _ _ _ | SComment _ => False | _ => True end -> oks x ->
+                build_other (kind_of x) (r_stmt lay x) = m_stmt ns x) ->
+  forall sh,
+  WfSheet sh -> selectors_ok sh = true -> OkSheet okd okm oks sh ->
+  JL (map (build_item build_value build_media build_other (sheet_depth sh) (ns_of sh)) (skeleton (render sh lay ++ [eof_tok])))
+  = expected_model sh.
+Proof.
+  intros bv bm bo lay okd okm oks Hv Hm Ho sh Hw Hs Hok.
+  exact (parse_faithful_fragment_lemma bv bm bo lay okd okm oks Hv Hm Ho sh
+           (delimited_of_wf sh lay Hw) (selectors_ok_accepted sh Hs) Hok).
+Qed.
+Print Assumptions parse_faithful_fragment.
+
+(* value_grammar_faithful is a THEOREM on the fragment okd_pp (= ProdParserValue.wf_valuex_js: every term of the
+   declaration is a single token -- identifier / colour keyword, number, dimension, percentage, string, url, hex colour,
+   unicode-range -- or rgb(r, g, b), with PP's side conditions): build_value is instantiated with
+   ProdParserValue.build_valuex, i.e. the PropertyValue production tree regenerated from value.py run by the engine model
+   of prodparser.py (depth budget 3) and the reader of its items.  Any layout.                                        *)
+Theorem value_grammar_faithful_pp : forall lay d ga,
+  okd_pp d -> ProdParserValue.build_valuex (decl_value lay d (gopt lay ga)) = m_value d.
+Proof. intros lay d ga H. now apply ProdParserValue.value_grammar_faithful_x. Qed.
+Print Assumptions value_grammar_faithful_pp.
+
+(* media_grammar_faithful is a THEOREM on the fragment okm_pp: build_media is instantiated with build_media_pp = the
+   MediaList / MediaQuery trees regenerated from medialist.py / mediaquery.py run by the engine model (depth budget 6),
+   the MediaList post-processing (repetitions, `all`) and the reader rd_mq (the harness extractor x_mquery in Gallina).
+   okm_pp: every query is accepted by the model (known media type, or an unknown one without only/not; a query followed by
+   a comma stops there: ProdParserMedia.wf_ml), media types are plain identifiers, feature values are single number /
+   dimension / percentage / non-colour identifier tokens.  Any layout, any gaps around the list.                     *)
+Theorem media_grammar_faithful_pp : forall lay g0 media g1,
+  okm_pp media -> build_media_pp (media_head lay g0 media g1 ++ [ch "{"]) = m_mlist media.
+Proof. exact GrammarPP.media_grammar_faithful_pp. Qed.
+Print Assumptions media_grammar_faithful_pp.
+
+(* NO handler hypothesis left: for every well-formed sheet that consists of rule sets, comments and @media rules (nested
+   to any depth) whose declarations are in okd_pp and whose media lists are in okm_pp, for every layout, the model built
+   from the skeleton of the rendered tokens by the modelled layers + the PP engine on the regenerated grammars is the
+   expected model.  (Still outside: the tokenizer step -- tokenize_render, C09 -- and C16's selector machine, entering
+   through the decidable selectors_ok; the simple at-rules @charset/@import/@namespace/@page/@font-face/unknown, whose
+   heads are not modelled: no_simple excludes them.)                                                               *)
+Theorem parse_faithful_pp : forall lay sh,
+  WfSheet sh -> selectors_ok sh = true -> OkSheet okd_pp okm_pp no_simple sh ->
+  JL (map (build_item ProdParserValue.build_valuex build_media_pp (fun _ _ => JL []) (sheet_depth sh) (ns_of sh))
+          (skeleton (render sh lay ++ [eof_tok]))) = expected_model sh.
+Proof. exact parse_faithful_pp_lemma. Qed.
+Print Assumptions parse_faithful_pp.
+
+(* the same for sheets with @media heads outside okm_pp: only media_grammar_faithful remains, restricted to the media
+   lists of the sheet *)
+Theorem parse_faithful_values_pp : forall (build_media : list tok -> js) (lay : layout) (okm : mlist -> Prop),
+  (forall g0 media g1, okm media -> build_media (media_head lay g0 media g1 ++ [ch "{"]) = m_mlist media) ->
+  forall sh,
+  WfSheet sh -> selectors_ok sh = true -> OkSheet okd_pp okm no_simple sh ->
+  JL (map (build_item ProdParserValue.build_valuex build_media (fun _ _ => JL []) (sheet_depth sh) (ns_of sh))
+          (skeleton (render sh lay ++ [eof_tok]))) = expected_model sh.
+Proof. exact parse_faithful_values_pp_lemma. Qed.
+Print Assumptions parse_faithful_values_pp.
+
+(* non-vacuity: pp_sheet = a comment, a rule set with two selectors and three declarations (identifier, signed number,
+   string containing ';}', !important; dimension / percentage; rgb(), url, hex colour), an @media rule
+   `only screen and (min-width: 25cm), print` holding a rule set and a nested @media -- in the fragment, well-formed,
+   selectors accepted; hence the conclusion of parse_faithful_pp holds for it under EVERY layout.                   *)
+Example parse_faithful_pp_example :
+  WfSheet pp_sheet /\ selectors_ok pp_sheet = true /\ OkSheet okd_pp okm_pp no_simple pp_sheet /\
+  length pp_sheet = 3 /\ sheet_depth pp_sheet = 2 /\
+  forall lay,
+    JL (map (build_item ProdParserValue.build_valuex build_media_pp (fun _ _ => JL []) 2 (ns_of pp_sheet))
+            (skeleton (render pp_sheet lay ++ [eof_tok]))) = expected_model pp_sheet.
+Proof.
+  split; [exact pp_sheet_wf|]. split; [exact pp_sheet_sel|]. split; [exact pp_sheet_ok|].
+  split; [reflexivity|]. split; [reflexivity|].
+  intros lay. exact (parse_faithful_pp lay pp_sheet pp_sheet_wf pp_sheet_sel pp_sheet_ok).
+Qed.
